@@ -124,7 +124,8 @@ PROPS = {
                      "Arca.Props.C01.error_buffer_bounded", "Arca.Props.C01.error_capacity_sufficient", "Arca.Props.C01.dead_only_by_panic"],
         "pins": RUNLOOP_PINS,
         "streams": [S_loop(mon_c01_loop), S_loop(mon_c01_loop, fanin=True), S_engine(M.mon_c01_engine), S_prompt("C01"),
-                    S_foreach_close(M.mon_c01_engine)],
+                    S_foreach_close(M.mon_c01_engine),
+                    S_engine(M.mon_c01_engine, extra=["-cancel", "random"], name="engine-cancel", n=(60, 600), seed_off=29)],
         "rule": LOOP_RULE + "; fan-in shape: one output fed by a failing step and 45 others; " + ENGINE_RULE,
     },
     "C02": {
@@ -142,7 +143,9 @@ PROPS = {
         "theorems": ["Arca.Props.C03.result_sound", "Arca.Props.C03.result_is_the_output",
                      "Arca.Props.C03.no_output_reported_when_last_output_fails"],
         "pins": RUNLOOP_PINS + RESOLVE_PINS,
-        "streams": [S_loop(), S_engine(M.mon_c03_engine, n=(250, 2500), seed_off=7)],
+        "streams": [S_loop(), S_engine(M.mon_c03_engine, n=(250, 2500), seed_off=7),
+                    # runs cancelled by the caller: "if no declared output is producible the run returns an error and no output"
+                    S_engine(M.result_shape("C03"), extra=["-cancel", "random"], name="engine-cancel", n=(60, 600), seed_off=29)],
         "rule": LOOP_RULE + " - the returned output must be one the model admits; " + ENGINE_RULE +
                 " - the returned output is recomputed declaratively from the logged step outcomes",
     },
